@@ -24,6 +24,9 @@ FIN = {"expand_derivatives"}
 E1 = {"mul", "add", "sub", "div", "pow", "abs", "sqrt", "neg", "index", "dot", "inner", "outer", "list", "cond", "lt", "max", "min", "sign", "variable", "as_tensor", "conj", "real"}
 
 
+MATH = {"exp", "ln", "sin", "cos", "tan", "sinh", "cosh", "tanh", "asin", "atan"}
+
+
 def slices(tier):
     q = tier == "quick"
     kw = dict(finalops=FIN, only_final=True, nenv=1)
@@ -34,6 +37,14 @@ def slices(tier):
     # f depends on w through a user-supplied derivative df/dw = g; then grad(f) is perturbed by grad(g dv)
     userdg = dict(mode="gateaux", seeds={"w": ("dv", None), "f": (("prod", "g", "dv"), None), "gf": (("dprod", "g", "gdv", "dv", "gg"), None)},
                   opts={"dv": {"kind": "arg0"}, "gf": {"grad_of": "f"}, "gg": {"grad_of": "g"}, "gdv": {"grad_of": "dv"}}, gateaux=[("w", "dv", {"f": "g"})])
+    # two derivatives with the same coefficient and direction but DIFFERENT user-supplied relations in
+    # one expansion: the s-variable carries df/dw = g, the t-variable df/dw = h
+    userd2 = dict(mode="gateaux", seeds={"w": ("dv", "dv"), "f": (("prod", "g", "dv"), ("prod", "h", "dv"))}, opts={"dv": {"kind": "arg0"}}, gateaux=[("w", "dv", {"f": "g"}), ("w", "dv", {"f": "h"})])
+    mathj = dict(mode="gateaux", seeds={"w": ("dv", None), "w1": (None, "dv")}, opts={"dv": {"kind": "arg0"}}, gateaux=[("w", "dv"), ("w1", "dv")])
+    # a fixed component of a rank-2 coefficient, and a tuple of two components with two directions
+    AT = ("A", (2, 2))
+    comp2 = dict(mode="gateaux", seeds={"A": (("comp", (0, 1), "dv"), None)}, opts={"dv": {"kind": "arg0"}}, gateaux=[(("comp", (0, 1), "A"), "dv")])
+    tup2 = dict(mode="gateaux", seeds={"A": (("comps", [((0, 1), "dv"), ((1, 0), "dq")]), None)}, opts={}, gateaux=[(("tuple", [("comp", (0, 1), "A"), ("comp", (1, 0), "A")]), ["dv", "dq"])])
     A1 = {"mul", "add", "div", "pow", "abs", "sqrt", "neg", "max", "sign"}
     A2 = {"mul", "add", "sub", "div", "pow", "cond", "lt", "max", "min"}
     G1 = {"gateaux1"}
@@ -44,13 +55,22 @@ def slices(tier):
         Slice("v1", [U, DU, F, GU, GDU], E1, 3, idx=(10,), lits=[LIT["two"]], jets=vector, levels=[{"index", "dot", "inner", "outer", "mul", "list", "neg", "tr", "transpose", "pow"}, G1, FIN], mikinds=("name", "fixed"), **kw),
         Slice("v2", [U, DU, F, GU, GDU], E1, 4, idx=(10,), jets=vector, levels=[{"index", "dot", "inner", "tr"}, {"mul", "add", "div", "pow", "abs"}, G1, FIN], mikinds=("fixed",), **kw),
         Slice("comp", [U, DV, F], E1, 4, idx=(10,), jets=comp, levels=[{"index", "dot", "mul", "inner"}, {"mul", "add", "pow", "div", "index"}, G1, FIN], mikinds=("name", "fixed"), **kw),
-        Slice("userd-grad", [W, DV, F, G, ("gf", (2,)), ("gg", (2,)), GDV], A1, 4, idx=(10,), jets=userdg, levels=[{"index", "dot", "mul"}, {"mul", "add"}, G1, FIN], mikinds=("fixed",), **kw),
+        Slice("userd-grad", [W, DV, F, G, ("gf", (2,)), ("gg", (2,)), GDV], A1, 4, idx=(10,), jets=userdg, levels=[{"index", "dot"}, {"mul", "add"}, G1, FIN], mikinds=("fixed",), chain="strict", **kw),
+        Slice("userd-two", [W, DV, F, G, ("h", ())], A1, 4, jets=userd2, levels=[G1, {"gateaux2"}, {"add", "mul"}, FIN], chain=True, **kw),
+        Slice("comp2", [AT, DV, F], E1, 4, idx=(10,), jets=comp2, levels=[{"index", "tr", "det", "inner", "dot"}, {"mul", "add", "pow", "index"}, G1, FIN], mikinds=("fixed",), chain=True, **kw),
+        Slice("tuple2", [AT, DV, ("dq", ()), F], E1, 4, idx=(10,), jets=tup2, levels=[{"index", "tr", "det", "inner"}, {"mul", "add", "pow", "index"}, G1, FIN], mikinds=("fixed",), chain=True, **kw),
+        # Gateaux derivative through exp, ln, sin, ...: w vanishes at the point (w1 is 1 there)
+        Slice("math", [W, ("w1", ()), DV, F], MATH | {"mul", "add"}, 3, jets=mathj, fixed={"w": 0, "w1": 1},
+              levels=[MATH | {"mul"}, G1 | {"gateaux2"}, FIN], **dict(kw, chain="strict")),
+        Slice("math2", [W, ("w1", ()), DV], MATH | {"mul", "add"}, 4, jets=mathj, fixed={"w": 0, "w1": 1},
+              levels=[MATH | {"mul"}, {"exp", "ln", "sin", "cos", "mul"}, G1 | {"gateaux2"}, FIN], **dict(kw, chain="strict")),
         Slice("userd", [W, DV, F, G], A1, 3, lits=[LIT["two"]], jets=userd, levels=[{"mul", "add", "pow", "div", "abs"}, G1, FIN], **kw),
     ]
     if not q:
         out += [
             Slice("s2", [W, DV, F, GW, GDV], A1, 4, lits=[LIT["two"]], idx=(10,), jets=scalar, levels=[{"mul", "div", "pow", "abs", "sqrt", "dot", "index", "lt"}, {"mul", "add", "div", "pow", "cond", "max"}, G1, FIN], mikinds=("fixed",), **kw),
             Slice("s-second2", [W, DV, DV2, F], A1, 5, jets=scalar, levels=[{"mul", "div"}, {"mul", "add", "pow"}, G1, {"gateaux2"}, FIN], **kw),
+            Slice("userd-two2", [W, DV, F, G, ("h", ())], A1, 5, jets=userd2, levels=[{"mul"}, G1, {"gateaux2"}, {"add", "mul"}, FIN], chain=True, **kw),
             Slice("userd2", [W, DV, F, G], A1, 4, jets=userd, levels=[{"mul", "add", "pow", "div"}, {"mul", "add", "div"}, G1, FIN], **kw),
             Slice("s3", [W, DV, DV2, F, GW, GDV], A1, 5, lits=[LIT["two"]], idx=(10,), jets=scalar, levels=[A1 | {"index", "dot"}, A2 | {"dot", "inner", "index"}, A2, G1, FIN], mikinds=("name", "fixed"), **kw),
             Slice("v3", [U, DU, F, GU, GDU], E1, 5, idx=(10,), jets=vector, levels=[{"index", "dot", "inner", "outer", "mul", "list", "tr", "as_tensor"}, {"mul", "add", "index", "dot", "inner"}, {"mul", "add", "div", "pow", "abs", "cond", "lt"}, G1, FIN], mikinds=("name", "fixed"), **kw),
